@@ -43,6 +43,7 @@ COMPONENTS = {
 
 SWEEP = {  # line-sweep crash enumeration: (bases, stride) per tier, victim process index
     "C11": {"quick": (1, 6), "thorough": (10, 1), "victim": 0},
+    "C16": {"quick": (1, 6), "thorough": (10, 1), "victim": 0},
 }
 
 
